@@ -23,6 +23,15 @@ extern "C" int h_fast(unsigned d, double* a, double* buf, double* o){
     return 0;
   }catch(...){ return 1; }
 }
+// the result assigned onto the very vector being evolved (mode 0: A = A.Evolve(buf), 1: A = A.Evolve(H,t))
+extern "C" int h_inplace(unsigned mode, unsigned d, double* a, double* hh, double t, double* buf){
+  try{
+    SU_vector A(d,a), H(d,hh);
+    if(mode==0) A = A.Evolve(buf);
+    else A = A.Evolve(H,t);
+    return 0;
+  }catch(...){ return 1; }
+}
 extern "C" int h_trace(unsigned d, double* a, double* b, double* o){
   try{
     SU_vector A(d,a), B(d,b);
